@@ -16,6 +16,9 @@ import (
 	"time"
 )
 
+// Out is where verdict lines go (checks that have to silence the engine's stdout logging replace os.Stdout).
+var Out = os.Stdout
+
 // Root is the /verif directory (VERIF_ROOT overrides, used by background snapshots).
 func Root() string {
 	if r := os.Getenv("VERIF_ROOT"); r != "" {
@@ -186,7 +189,7 @@ func (r *Run) Finish() int {
 	for _, k := range keys {
 		v := r.viol[k]
 		if v.IsKnown {
-			fmt.Printf("KNOWN-FINDING: property=%s %s (%s; %d cases this run)\n", r.Prop, k, r.known[k].What, v.Count)
+			fmt.Fprintf(Out, "KNOWN-FINDING: property=%s %s (%s; %d cases this run)\n", r.Prop, k, r.known[k].What, v.Count)
 			hit = append(hit, k)
 			continue
 		}
@@ -198,8 +201,8 @@ func (r *Run) Finish() int {
 		b, _ := json.MarshalIndent(map[string]interface{}{"property": r.Prop, "key": k, "what": v.What, "count": v.Count, "replay": v.Replay}, "", " ")
 		ioutil.WriteFile(path, b, 0644)
 		v.Path = path
-		fmt.Printf("VIOLATION property=%s replay=%s\n", r.Prop, path)
-		fmt.Printf("  key=%s cases=%d what=%s\n", k, v.Count, v.What)
+		fmt.Fprintf(Out, "VIOLATION property=%s replay=%s\n", r.Prop, path)
+		fmt.Fprintf(Out, "  key=%s cases=%d what=%s\n", k, v.Count, v.What)
 	}
 	cov := map[string]interface{}{}
 	for k, v := range r.extra {
@@ -250,7 +253,7 @@ func (r *Run) Finish() int {
 		fmt.Fprintln(os.Stderr, "cannot write evidence:", err)
 		return 2
 	}
-	fmt.Printf("%s %s: states=%d transitions=%d evaluations=%d exhaustive=%v violations=%d known=%d wall=%.1fs\n",
+	fmt.Fprintf(Out, "%s %s: states=%d transitions=%d evaluations=%d exhaustive=%v violations=%d known=%d wall=%.1fs\n",
 		r.Prop, r.Tier, st, tr, ev, r.exhaustive, newV, len(hit), time.Since(r.start).Seconds())
 	if newV > 0 {
 		return 1
